@@ -1,17 +1,19 @@
 #!/bin/bash
 # usage: refac_eval.sh <worktree> <outdir>  — applies each behaviour-preserving patch and lists NEW alarms
-W=$1; O=$2
+W=$1; O=$2; T=$(mktemp -d /tmp/refac_eval.XXXXXX)
 cd $W; git checkout -q -- . ; git clean -fdq
-cd /verif; ./bin/agecheck -repo $W -prop all 2>&1 | grep -v WARNING | grep -A1 '^VIOLATION' | grep '^  ' | sed 's/ at [^ ]* (/ (/' | cut -c1-160 | sort -u > /tmp/refac_base.txt
+cd /verif; ./bin/agecheck -repo $W -prop all 2>&1 | grep -v WARNING | grep -A1 '^VIOLATION' | grep '^  ' | sed 's/ at [^ ]* (/ (/' | cut -c1-160 | sort -u > $T/base.txt
 for n in 1 2 3 4; do
   [ -f $O/$n/patch.diff ] || continue
   cd $W; git checkout -q -- . ; git clean -fdq
   git apply $O/$n/patch.diff || { echo "$O/$n: patch does not apply"; continue; }
-  cd /verif; ./bin/agecheck -repo $W -prop all 2>&1 | grep -v WARNING > /tmp/refac_run.txt
-  grep -A1 '^VIOLATION' /tmp/refac_run.txt | grep '^  ' | sed 's/ at [^ ]* (/ (/' | cut -c1-160 | sort -u > /tmp/refac_new.txt
-  NEW=$(comm -13 /tmp/refac_base.txt /tmp/refac_new.txt | wc -l)
+  cd /verif; ./bin/agecheck -repo $W -prop all 2>&1 | grep -v WARNING > $T/run.txt
+  grep -q 'normalisation rejected' $T/run.txt && echo "   (normalisation rejected in $O/$n: $(grep -m1 -A2 'normalisation rejected' $T/run.txt | tr '\n' ' ' | cut -c1-300))"
+  grep -A1 '^VIOLATION' $T/run.txt | grep '^  ' | sed 's/ at [^ ]* (/ (/' | cut -c1-160 | sort -u > $T/new.txt
+  NEW=$(comm -13 $T/base.txt $T/new.txt | wc -l)
   echo "== $O/$n: $NEW new alarm(s)"
-  grep -A1 '^VIOLATION' /tmp/refac_run.txt | grep '^  ' | cut -c1-${REFW:-420} > /tmp/refac_full.txt
-  comm -13 /tmp/refac_base.txt /tmp/refac_new.txt | while read -r l; do key=$(echo "$l" | cut -c1-90); grep -F -- "$(echo "$l" | cut -c1-60)" /tmp/refac_full.txt | head -1; done
+  grep -A1 '^VIOLATION' $T/run.txt | grep '^  ' | cut -c1-${REFW:-420} > $T/full.txt
+  comm -13 $T/base.txt $T/new.txt | while read -r l; do grep -F -- "$(echo "$l" | cut -c1-60)" $T/full.txt | head -1; done
   cd $W; git checkout -q -- . ; git clean -fdq
 done
+rm -rf $T
